@@ -206,7 +206,14 @@ def run_driver(cfg, tier, seed, extra=(), timeout=1800):
     wd = os.path.join(WORK, cfg["id"])
     os.makedirs(wd, exist_ok=True)
     env = dict(GOENV, VERIF_WORK=wd, VERIF_ROOT=ROOT)
-    p = subprocess.run(cmd, cwd=wd, env=env, timeout=timeout, stdout=subprocess.PIPE, stderr=subprocess.PIPE, text=True)
+    try:
+        p = subprocess.run(cmd, cwd=wd, env=env, timeout=timeout, stdout=subprocess.PIPE, stderr=subprocess.PIPE, text=True)
+    except subprocess.TimeoutExpired as e:
+        # a driver that does not finish within its (generous) limit means the implementation could not be
+        # exercised: the correspondence is not checked (reported with no-failing-input-found, never as a pass)
+        def _txt(b):
+            return b.decode("utf-8", "replace") if isinstance(b, (bytes, bytearray)) else (b or "")
+        return 124, [], {}, "driver %s did not finish within %ds (tier %s)\n%s" % (name, timeout, tier, _txt(e.stderr)[-2000:])
     cases, meta = [], {}
     for line in p.stdout.split("\n"):
         line = line.strip()
